@@ -827,6 +827,8 @@ func genC06(c *Ctx) {
 			c.Case("rev", spts(ps))
 			c.Case("orient", spts(ps))
 		}
+		// extended coordinate values (c06_ext.go): ±0, ±Inf, ±MaxFloat64, subnormals, float neighbours, NaN
+		genC06ExtFixed(c)
 	}
 	for k := 0; k < c.Budget && !c.Exhausted(); k++ {
 		mode := []CoordMode{CoordSmallInt, CoordSmallInt, CoordInt, CoordHalf, CoordFloat}[r.Intn(5)]
@@ -841,6 +843,7 @@ func genC06(c *Ctx) {
 			h = genGeom(r, o, 0)
 		}
 		c.Case("pair", gsN(g)+" "+gsN(h))
+		genC06ExtRandom(c)
 		// orb.Round: all kinds incl. nil members, every coordinate pool incl. arbitrary bit patterns, ties
 		{
 			fs := c06Factors[r.Intn(len(c06Factors))]
